@@ -288,20 +288,14 @@ func (m mtMod) State(x *X, c *Chain) string {
 	s := m.scratch(x)
 	store := c.Ctx.KVStore(c.App.GetKey(mttypes.StoreKey))
 	cdc := c.App.AppCodec()
-	// classes through the gRPC query
-	var ds []string
-	for _, d := range m.denomList(x, c) {
-		ds = append(ds, lib.Pair(lib.Z(m.rk(x, d.Id)), m.dinfoTerm(x, c, d)))
-	}
-	// MT records as stored (raw), keys "\x02/<class>/<mt>"
-	var ms []string
+	// MT records as stored (raw), keys "\x02/<class>/<mt>", grouped by class
+	mtsOf := map[string][]string{}
 	it := storetypes.KVStorePrefixIterator(store, mttypes.PrefixMT)
 	for ; it.Valid(); it.Next() {
 		parts := bytes.Split(it.Key(), mttypes.Delimiter)
 		var t mttypes.MT
 		cdc.MustUnmarshal(it.Value(), &t)
-		ms = append(ms, lib.Pair(lib.Pair(lib.Z(m.rk(x, string(parts[1]))), lib.Z(m.rk(x, string(parts[2])))),
-			lib.Pair(lib.Z(m.bytesID(x, t.Data)), lib.ZU(t.Supply))))
+		mtsOf[string(parts[1])] = append(mtsOf[string(parts[1])], lib.Pair(lib.Z(m.rk(x, string(parts[2]))), lib.Pair(lib.Z(m.bytesID(x, t.Data)), lib.ZU(t.Supply))))
 		// the gRPC MT query must show the same data
 		q, err := c.Mt.MT(c.Ctx, &mttypes.QueryMTRequest{DenomId: string(parts[1]), MtId: string(parts[2])})
 		if err != nil || !bytes.Equal(q.Mt.Data, t.Data) {
@@ -309,6 +303,15 @@ func (m mtMod) State(x *X, c *Chain) string {
 		}
 	}
 	it.Close()
+	// classes through the gRPC query, each with its MTs
+	var cols []string
+	for _, d := range m.denomList(x, c) {
+		cols = append(cols, lib.Pair(lib.Z(m.rk(x, d.Id)), lib.Pair(m.dinfoTerm(x, c, d), lib.L(mtsOf[d.Id]...))))
+		delete(mtsOf, d.Id)
+	}
+	for id := range mtsOf {
+		x.Notes = append(x.Notes, "mt: MTs stored for a class that does not exist: "+id)
+	}
 	// supplies (raw): "\x04/<class>/" class supply, "\x04/<class>/<mt>" MT supply
 	var msup, dsup []string
 	it = storetypes.KVStorePrefixIterator(store, mttypes.PrefixSupply)
@@ -356,7 +359,7 @@ func (m mtMod) State(x *X, c *Chain) string {
 	if c == x.A {
 		s.holders = holders
 	}
-	return lib.App("mkState", lib.L(ds...), lib.L(ms...), lib.L(msup...), lib.L(dsup...), lib.L(bs...),
+	return lib.App("mkState", lib.L(cols...), lib.L(msup...), lib.L(dsup...), lib.L(bs...),
 		lib.ZU(c.Mt.GetDenomSequence(c.Ctx)), lib.ZU(c.Mt.GetMTSequence(c.Ctx)))
 }
 
